@@ -1318,7 +1318,10 @@ func (f *Field) importValue(columnIDs []uint64, values []int64, options *ImportO
 			baseValues[i] = value - bsig.Base
 		}
 
-		if err := frag.importValue(data.ColumnIDs, baseValues, requiredDepth, options.Clear); err != nil {
+		// Write with the field's bit depth, not the depth this batch needs:
+		// a column that already holds a larger value must have its higher
+		// bits cleared.
+		if err := frag.importValue(data.ColumnIDs, baseValues, bsig.BitDepth, options.Clear); err != nil {
 			return err
 		}
 	}
